@@ -53,7 +53,12 @@ func c02Menu(w *mintops.W) []string {
 		}
 	}
 	if len(w.Melts) < 2 {
-		ops = append(ops, "meltq|4")
+		ops = append(ops, "meltq|4", "meltqm|3999", "meltqm|1001")
+		for qi, q := range w.Quotes {
+			if qi >= 1 && q.Payments == 0 {
+				ops = append(ops, fmt.Sprintf("meltqh|%d|1", qi))
+			}
+		}
 		if w.Cfg.MPP {
 			ops = append(ops, "meltqp|4")
 		}
